@@ -63,6 +63,18 @@ def run(chk, replay=None):
                     for cls in ("Plain", "Lt"):
                         jobs.append({"k": "obj", "id": f"l{len(jobs)}", "cls": t["name"], "map": -1,
                                      "vals": [cls if i in sub else "" for i in range(nf)], "variant": 0})
+            # list lattice (ListShapes of spec/Codec.tla): every list-valued field of every type takes every shape
+            # (empty, one, two, dup, aba, case, space, emptymember), alone and with all other fields present
+            for t in reg["objects"]:
+                nf = len(t["fields"])
+                for j, kind in enumerate(t.get("kinds", [])):
+                    if not (kind.startswith("list:") or kind.startswith("set:") or "+set:" in kind):
+                        continue
+                    for shape in range(8):
+                        for cls in ("Plain", "Amp"):
+                            for others in ("", "Plain"):
+                                jobs.append({"k": "obj", "id": f"q{len(jobs)}", "cls": t["name"], "map": -1, "shape": shape,
+                                             "vals": [cls if i == j else others for i in range(nf)], "variant": 0})
             # default-constructed and fully set objects, getters logged (determinism across heap fill patterns)
             k = len(plans[0]["steps"]) - 2
             for t in reg["objects"]:
@@ -88,7 +100,9 @@ def run(chk, replay=None):
         "evaluations": len(objs) + sum(o["tried"] for o in subs) + sum(o["runs"] for o in sds) + sum(o["n"] for o in scal),
         "distinct_nontrivial": sum(1 for o in objs if o.get("nset", 0) > 0) + sum(o["tried"] for o in subs),
         "object_cases": len(objs),
-        "presence_lattice_cases": sum(1 for o in objs if o.get("map") == -1),
+        "presence_lattice_cases": sum(1 for o in objs if o.get("map") == -1 and "shape" not in o),
+        "list_lattice_cases": sum(1 for o in objs if "shape" in o),
+        "list_valued_fields": sum(1 for t in reg["objects"] for k in t.get("kinds", []) if k.startswith("list:") or k.startswith("set:") or "+set:" in k),
         "object_types": len(reg["objects"]),
         "object_fields": sum(len(t["fields"]) for t in reg["objects"]),
         "registry_classes": len(reg["registry"]),
@@ -134,7 +148,7 @@ def run(chk, replay=None):
             what_at = b.get("f") or ""
             sig = f"C01:{b['k']}:{o['cls']}:{what_at}"
             desc = (f"{o['cls']}: {b['k']}" + (f" of field {b['f']}" if b.get("f") else "") +
-                    f" (plan {o['vals']}, map {o['map']}, variant {o['variant']}): before={cc.short(b.get('want', ''))} after={cc.short(b.get('got', ''))} "
+                    f" (plan {o['vals']}, map {o['map']}, variant {o['variant']}{', list shape ' + o['shape'] if 'shape' in o else ''}): before={cc.short(b.get('want', ''))} after={cc.short(b.get('got', ''))} "
                     f"xml={cc.short(o.get('x1', ''), 300)}")
         elif o["e"] == "Subst":
             slot = re.sub(r"\{[^}]*\}", "", b["slot"])
